@@ -248,8 +248,19 @@ def message(rng, truth, mime=False, date=None):
             else:
                 pb = rng.choice([b'hello', b'p%d' % i, b'bird line1'])
             parts.append(b'\n'.join(ph) + b'\n\n' + pb + b'\n')
-        hs.append(b'Content-Type: multipart/mixed; boundary="b"')
-        body = b''.join(b'--b\n' + p for p in parts) + (b'--b--\n' if rng.random() < 0.93 else b'')
+        if rng.random() < 0.12:
+            # a boundary only an RFC 2047 encoded word can produce (newline, CR, "--"): findboundary compares bytes and resumes after
+            # the text it compared; the parts between delimiter look-alikes (the PG2 witness shape among them)
+            import gen_msg
+            bnd = rng.choice([b'b\n', b'b\n', b'b\n--b', b'b\nb', b'\n', b'b\r', b'--', b'b--'])
+            hs.append(b'Content-Type: multipart/mixed; boundary="' + gen_msg.encode_boundary(rng, bnd) + b'"')
+            body = b''
+            for p in parts:
+                body += rng.choice([b'--' + bnd + b'\n', b'--' + bnd + b'\n', b'--' + bnd + b'\n--' + bnd + b'\n\n', b'--' + bnd, b'--' + bnd + b'--' + bnd + b'\n']) + p
+            body += rng.choice([b'--' + bnd + b'--\n', b'--' + bnd + b'--\n', b'--' + bnd + b'\n--' + bnd + b'--\n', b''])
+        else:
+            hs.append(b'Content-Type: multipart/mixed; boundary="b"')
+            body = b''.join(b'--b\n' + p for p in parts) + (b'--b--\n' if rng.random() < 0.93 else b'')
     else:
         body = rng.choice([b'hello\n', b'bird\nline1\nline2\n', b'', b'xyz\n', b'plain body\n'])
         if rng.random() < 0.1:
